@@ -185,6 +185,7 @@ def random_case(rnd):
                    for _ in range(rnd.randint(1, 2))]
     return {"transport": tr, "keep_alive": rnd.random() < 0.5, "timeout": tau, "retries": r, "count": count,
             "level": level, "callers": callers, "faults": faults, "toggles": toggles,
+            "same_contents": rnd.random() < 0.1,
             # the object has been used from another event loop before (a previous asyncio.run)
             "prior_loop": rnd.choice([False] * 11 + [True, "contended", "contended"])}
 
@@ -195,6 +196,8 @@ def simplify(case):
         out.append(dict(case, prior_loop=False))
     if case.get("toggles"):
         out.append(dict(case, toggles=case["toggles"][1:]))
+    if case.get("same_contents"):
+        out.append(dict(case, same_contents=False))
     for ci, c in enumerate(case["callers"]):
         for oi, op in enumerate(c["ops"]):
             if op.get("cancel") is not None and not case.get("cancel_mode"):
@@ -223,6 +226,12 @@ def simulate(case):
     tr, tau, r, count = case["transport"], case["timeout"], case["retries"], case["count"]
     world = World(faults=case["faults"], max_steps=100_000)
     dev = SimInverter(mode="stamp")
+    if case.get("same_contents"):
+        # all registers hold the same value: the answers to different requests are the same bytes (what a filter for
+        # 'repeated datagrams' would take for duplicates)
+        dev = SimInverter(mode="file", fill="constw")
+        dev.const_word = 0x0102
+        dev.stamp_payload = lambda reg, count, tx: b"\x01\x02" * count
     world.net.add_device(C.HOST, C.port_of(tr), dev)
     results = []
     if case["level"] == "inverter":
